@@ -178,10 +178,17 @@ def gen_hash_case(rng, tier):
 
 
 def gen_nospec_case(rng):
-    """fromString on strings with characters >= 0x80 (outside the theorems: the model predicts UB when such a
+    """fromString on strings with characters >= 0x80 (outside the theorems: the model predicts UB exactly when such a
     character is the first of a consumed pair); compared with the model only."""
-    n = rng.choice([1, 2, 3, 4, 8, 64, 66, 70])
-    bs = [rng.choice([0x30, 0x61, 0x46, 0x7a]) if rng.random() < 0.7 else rng.choice([0x80, 0xe9, 0xff, 0xc3]) for _ in range(n)]
+    n = rng.choice([2, 3, 4, 8, 64, 66, 70])
+    hi = [0x80, 0xe9, 0xff, 0xc3]
+    lo = [0x30, 0x61, 0x46, 0x7a, 0x39]
+    if rng.random() < 0.6:
+        # defined: high characters only as second of a pair, in an ignored trailing character or beyond 64 characters
+        bs = [rng.choice(hi) if (k % 2 == 1 or k >= 64 or (k == n - 1 and n % 2 == 1)) and rng.random() < 0.5 else rng.choice(lo)
+              for k in range(n)]
+    else:
+        bs = [rng.choice(lo) if rng.random() < 0.7 else rng.choice(hi) for _ in range(n)]
     return "Q " + bytes_tok("P", bs)
 
 
@@ -267,7 +274,7 @@ def second_process(run, impl, env, cases, I):
         return 0
     env2 = dict(env)
     env2["C27_SALT"] = "5"
-    I2 = [norm_impl(x) for x in C.run_impl_parallel([impl], [c for _, c in hcases], env=env2)]
+    I2 = [norm_impl(x) for x in C.run_impl_parallel([impl], [c for _, c in hcases], env=env2, jobs=2)]
     bad = 0
     for (k, c), y in zip(hcases, I2):
         if y.startswith("R CRASH (not run"):
@@ -292,10 +299,10 @@ def run(run, tier, seed, replay_case=None):
 
     rng = random.Random(seed * 7919 + 27)
     corpus = C.load_corpus(PROP)
-    n = 2500 if tier == "quick" else 60000
-    nh = 400 if tier == "quick" else 6000
+    n = 2500 if tier == "quick" else 40000
+    nh = 400 if tier == "quick" else 4000
     cases = list(corpus) + enumerated() + [gen_case(rng, tier) for _ in range(n)] + [gen_hash_case(rng, tier) for _ in range(nh)]
-    nospec = [gen_nospec_case(rng) for _ in range(150 if tier == "quick" else 2000)]
+    nospec = [gen_nospec_case(rng) for _ in range(36 if tier == "quick" else 120)]
     if replay_case is not None:
         cases = [replay_case]
         nospec = []
@@ -304,7 +311,7 @@ def run(run, tier, seed, replay_case=None):
     env = C.lib_env("asan")
     # no stack traces: symbolising libocca.so costs seconds per stopped process, and the summary line is enough
     env["UBSAN_OPTIONS"] = "print_stacktrace=0:halt_on_error=1:exitcode=98"
-    D = Diff(run, PROP, [impl], model, env, view=view, signatures=SIGNATURES, keep_first=0,
+    D = Diff(run, PROP, [impl], model, env, view=view, signatures=SIGNATURES, keep_first=0, jobs=2,
              model_desc="coq/C27/Model.v vs src/utils/hash.cpp + toHex/fromHex of src/occa/internal/utils/string.hpp")
     orig_known = C.load_known_findings
     C.load_known_findings = lambda prop: orig_known(prop) + load_extra_known()
